@@ -71,3 +71,11 @@ Proof.
   pose proof (quote_is_one_literal_l s rest Hsafe) as Q. unfold quote in Q.
   rewrite (esc_plain s Hp) in Q. rewrite <- Q. now rewrite !sapp_assoc.
 Qed.
+
+(* numeric texts: unchanged by the escaper, and inside a literal they stay inside it *)
+Lemma numeric_text l : all_chars plain_char l = true -> forall s acc, over l s = true ->
+  esc s = s /\ after (QStr acc) s = QStr (acc ++ s) /\ outs (QStr acc) s = [].
+Proof.
+  intros Hl s acc Hov. pose proof (all_chars_mem _ _ Hl s Hov) as Hp.
+  split; [now apply esc_plain|]. now apply plain_in_literal.
+Qed.
